@@ -11,6 +11,7 @@ import (
 	"go/parser"
 	"go/token"
 	"go/types"
+	"regexp"
 	"strings"
 
 	"golang.org/x/tools/go/ast/astutil"
@@ -253,10 +254,25 @@ func Rewrite(src []byte, info *types.Info, fset *token.FileSet, file *ast.File, 
 		}
 		return true
 	}, nil)
-	// drop the import declarations and collect function names
+	// drop the import declarations and collect function names; imports of the standard library are put back
+	// below when the rewritten text still mentions them
+	type stdImport struct{ name, path string }
+	var std []stdImport
 	var decls []ast.Decl
 	for _, d := range file.Decls {
 		if gd, ok := d.(*ast.GenDecl); ok && gd.Tok == token.IMPORT {
+			for _, sp := range gd.Specs {
+				is := sp.(*ast.ImportSpec)
+				path := strings.Trim(is.Path.Value, "\"")
+				if strings.Contains(strings.SplitN(path, "/", 2)[0], ".") || strings.HasPrefix(path, "subj/") {
+					continue
+				}
+				name := path[strings.LastIndex(path, "/")+1:]
+				if is.Name != nil {
+					name = is.Name.Name
+				}
+				std = append(std, stdImport{name, path})
+			}
 			continue
 		}
 		if fd, ok := d.(*ast.FuncDecl); ok {
@@ -278,6 +294,11 @@ func Rewrite(src []byte, info *types.Info, fset *token.FileSet, file *ast.File, 
 		return nil, err
 	}
 	body := buf.String()
+	for _, im := range std {
+		if regexp.MustCompile(`\b`+regexp.QuoteMeta(im.name)+`\.`).MatchString(body) && !strings.Contains(header, "\""+im.path+"\"") {
+			header = fmt.Sprintf("import %s %q\n\n", im.name, im.path) + header
+		}
+	}
 	body = strings.Replace(body, "package "+pkgName+"\n", "package "+pkgName+"\n\n"+header+"\n", 1)
 	out, err := format.Source([]byte(body))
 	if err != nil {
